@@ -1,6 +1,6 @@
 //! Engine B runtime: the simulated token producer, the event log, the
-//! monitors (oracles O1-O4, O7), the in-process minimiser and the `main` of
-//! every per-grammar binary.
+//! scheduler for interleaved parser activations, the monitors (oracles O1-O4,
+//! O7), the in-process minimiser and the `main` of every per-grammar binary.
 //!
 //! The per-grammar binary consists of the *unmodified* text returned by
 //! `kiki::generate`, a generated `glue.rs` (token constructor / inspector and
@@ -10,10 +10,12 @@ use crate::earley::{Earley, Fixpoint, Verdict};
 use crate::edits;
 use crate::grammar::{Analysis, Grammar};
 use crate::json::J;
+use crate::lr1::{BuildErr, Lr1};
 use crate::rng::{Fnv, Rng};
 use std::cell::RefCell;
 use std::panic::{catch_unwind, AssertUnwindSafe};
 use std::sync::atomic::{AtomicBool, AtomicU64, Ordering};
+use std::sync::mpsc::{channel, Receiver, Sender};
 use std::sync::Mutex;
 
 pub const ENGINE_B: u64 = 0xB;
@@ -42,6 +44,8 @@ pub enum Ev {
     End,
     NoneAfterEnd,
     ProducerPanic(usize),
+    ReenterBegin(usize),
+    ReenterEnd(usize),
     ProducerDropped,
     Drop(u64),
     ParseReturned,
@@ -62,6 +66,14 @@ fn ev(e: Ev) {
 
 fn take_log() -> Vec<Ev> {
     LOG.with(|l| std::mem::take(&mut *l.borrow_mut()))
+}
+
+fn restore_log(mut old: Vec<Ev>) {
+    LOG.with(|l| {
+        let mut cur = l.borrow_mut();
+        old.append(&mut cur);
+        *cur = old;
+    });
 }
 
 // --------------------------------------------------------------------- plan
@@ -93,7 +105,7 @@ impl Hint {
     }
 }
 
-/// One simulated run, fully explicit (a replay never needs the PRNG).
+/// One token stream and the behaviour of its producer, fully explicit.
 #[derive(Clone, Debug, PartialEq, Eq)]
 pub struct Plan {
     /// planned token kinds (workload)
@@ -109,14 +121,14 @@ pub struct Plan {
 }
 
 impl Plan {
+    pub fn plain(kinds: Vec<usize>) -> Plan {
+        Plan { kinds, eof_at: None, resume: vec![], panic_at: None, hint: Hint::Default }
+    }
     pub fn effective(&self) -> &[usize] {
         match self.eof_at {
             Some(k) => &self.kinds[..k.min(self.kinds.len())],
             None => &self.kinds,
         }
-    }
-    pub fn is_fault_free(&self) -> bool {
-        self.eof_at.is_none() && self.resume.is_empty() && self.panic_at.is_none()
     }
     pub fn to_json(&self) -> J {
         J::obj()
@@ -143,6 +155,80 @@ impl Plan {
             hint: Hint::from_name(j.get("hint").and_then(|x| x.as_str()).unwrap_or("default")),
         })
     }
+}
+
+/// One simulated run: activation A, optionally a re-entrant activation started
+/// from inside A's producer, optionally a second activation B on another thread
+/// interleaved with A at pull granularity by an explicit schedule, after an
+/// explicit call history. A replay never needs the PRNG.
+#[derive(Clone, Debug, PartialEq, Eq)]
+pub struct Scenario {
+    pub a: Plan,
+    /// fault: when A's producer is asked for item #k it first runs a complete,
+    /// independent parse of this plan on the same thread (a side-effecting
+    /// iterator that itself uses the parser)
+    pub reenter: Option<(usize, Plan)>,
+    /// second parser activation on its own thread
+    pub b: Option<Plan>,
+    /// scheduler decisions while both A and B are parked at a pull: 0 = A runs, 1 = B runs
+    pub schedule: Vec<u8>,
+    /// plans parsed earlier on the same thread of the same process
+    pub history: Vec<Plan>,
+}
+
+impl Scenario {
+    pub fn single(a: Plan) -> Scenario {
+        Scenario { a, reenter: None, b: None, schedule: vec![], history: vec![] }
+    }
+    pub fn to_json(&self) -> J {
+        J::obj()
+            .set("a", self.a.to_json())
+            .set(
+                "reenter",
+                match &self.reenter {
+                    Some((k, p)) => J::obj().set("at_pull", J::uz(*k)).set("plan", p.to_json()),
+                    None => J::Null,
+                },
+            )
+            .set("b", self.b.as_ref().map(|p| p.to_json()).unwrap_or(J::Null))
+            .set("schedule", J::Arr(self.schedule.iter().map(|x| J::uz(*x as usize)).collect()))
+            .set("history", J::Arr(self.history.iter().map(|p| p.to_json()).collect()))
+    }
+    pub fn from_json(j: &J) -> Result<Scenario, String> {
+        if j.get("a").is_none() {
+            // a bare plan
+            return Ok(Scenario::single(Plan::from_json(j)?));
+        }
+        let reenter = match j.get("reenter") {
+            Some(r) if !r.is_null() => Some((
+                r.get("at_pull").and_then(|x| x.as_usize()).ok_or("reenter.at_pull")?,
+                Plan::from_json(r.get("plan").ok_or("reenter.plan")?)?,
+            )),
+            _ => None,
+        };
+        let b = match j.get("b") {
+            Some(b) if !b.is_null() => Some(Plan::from_json(b)?),
+            _ => None,
+        };
+        let mut history = vec![];
+        for h in j.get("history").and_then(|x| x.as_arr()).unwrap_or(&[]) {
+            history.push(Plan::from_json(h)?);
+        }
+        Ok(Scenario {
+            a: Plan::from_json(j.get("a").unwrap())?,
+            reenter,
+            b,
+            schedule: j
+                .get("schedule")
+                .and_then(|x| x.as_arr())
+                .unwrap_or(&[])
+                .iter()
+                .filter_map(|x| x.as_usize())
+                .map(|x| x as u8)
+                .collect(),
+            history,
+        })
+    }
     fn digest(&self) -> u64 {
         let mut f = Fnv::new();
         f.str(&self.to_json().to_string());
@@ -153,6 +239,17 @@ impl Plan {
 // ----------------------------------------------------------------- producer
 
 pub struct ProducerCrash(pub usize);
+
+enum GateMsg {
+    AtGate(u8),
+    Finished(u8),
+}
+
+struct Gate {
+    who: u8,
+    arrive: Sender<GateMsg>,
+    grant: Receiver<()>,
+}
 
 pub struct SimStream {
     s: Vec<usize>,
@@ -167,10 +264,14 @@ pub struct SimStream {
     next_id: u64,
     /// (kind, id) of the token delivered for position i of the effective stream
     pub delivered: Vec<(usize, u64)>,
+    reenter: Option<(usize, Plan)>,
+    run_parse: Option<fn(&mut SimStream) -> Outcome>,
+    inner: Vec<(Plan, Obs)>,
+    gate: Option<Gate>,
 }
 
 impl SimStream {
-    pub fn new(plan: &Plan) -> SimStream {
+    fn new(plan: &Plan, id_base: u64) -> SimStream {
         SimStream {
             s: plan.effective().to_vec(),
             resume: plan.resume.clone(),
@@ -181,14 +282,36 @@ impl SimStream {
             pulls: 0,
             ended: false,
             pulls_after_end: 0,
-            next_id: 1,
+            next_id: id_base + 1,
             delivered: vec![],
+            reenter: None,
+            run_parse: None,
+            inner: vec![],
+            gate: None,
         }
     }
 
     pub fn pull(&mut self) -> Option<(usize, Tok)> {
+        if let Some(g) = &self.gate {
+            // scheduling point: park until the simulator lets this activation proceed
+            let _ = g.arrive.send(GateMsg::AtGate(g.who));
+            let _ = g.grant.recv();
+        }
         self.pulls += 1;
         ev(Ev::Pull(self.pulls));
+        if let Some((k, _)) = &self.reenter {
+            if *k == self.pulls {
+                let (_, inner_plan) = self.reenter.take().unwrap();
+                if let Some(rp) = self.run_parse {
+                    ev(Ev::ReenterBegin(self.pulls));
+                    let outer_log = take_log();
+                    let obs = run_activation(rp, &inner_plan, None, None, 1_000_000);
+                    restore_log(outer_log);
+                    ev(Ev::ReenterEnd(self.pulls));
+                    self.inner.push((inner_plan, obs.0));
+                }
+            }
+        }
         if self.panic_at == Some(self.pulls) {
             ev(Ev::ProducerPanic(self.pulls));
             std::panic::panic_any(ProducerCrash(self.pulls));
@@ -312,7 +435,9 @@ impl Tag {
     }
 }
 
-pub struct Exec {
+/// Everything observed about one parser activation.
+#[derive(Clone, Debug)]
+pub struct Obs {
     pub tag: Tag,
     pub events: Vec<Ev>,
     pub pulls: usize,
@@ -323,20 +448,33 @@ pub struct Exec {
     pub producer_dropped: bool,
 }
 
-static WATCH_PROGRESS: AtomicU64 = AtomicU64::new(0);
-static WATCH_IN_RUN: AtomicBool = AtomicBool::new(false);
-static WATCH_PLAN: Mutex<Option<String>> = Mutex::new(None);
-
-pub fn execute(glue: &Glue, plan: &Plan) -> Exec {
-    let _ = take_log();
-    {
-        *WATCH_PLAN.lock().unwrap() = Some(plan.to_json().to_string());
+impl Obs {
+    fn to_json(&self) -> J {
+        J::obj()
+            .set("result", self.tag.to_json())
+            .set("pulls", J::uz(self.pulls))
+            .set("pulls_after_end", J::uz(self.pulls_after_end))
+            .set("size_hint_calls", J::uz(self.size_hint_calls))
+            .set("leaked_tokens", J::uz(self.leaked))
+            .set("events", J::uz(self.events.len()))
     }
-    WATCH_PROGRESS.fetch_add(1, Ordering::SeqCst);
-    WATCH_IN_RUN.store(true, Ordering::SeqCst);
-    let mut stream = SimStream::new(plan);
-    let r = catch_unwind(AssertUnwindSafe(|| (glue.run_parse)(&mut stream)));
-    WATCH_IN_RUN.store(false, Ordering::SeqCst);
+}
+
+/// Runs one activation on the current thread; returns its observation and the
+/// observations of re-entrant activations started from inside its producer.
+fn run_activation(
+    run_parse: fn(&mut SimStream) -> Outcome,
+    plan: &Plan,
+    reenter: Option<(usize, Plan)>,
+    gate: Option<Gate>,
+    id_base: u64,
+) -> (Obs, Vec<(Plan, Obs)>) {
+    let _ = take_log();
+    let mut stream = SimStream::new(plan, id_base);
+    stream.reenter = reenter;
+    stream.run_parse = Some(run_parse);
+    stream.gate = gate;
+    let r = catch_unwind(AssertUnwindSafe(|| run_parse(&mut stream)));
     ev(Ev::ParseReturned);
     let (tag, held): (Tag, Option<Box<dyn Held>>) = match r {
         Ok(Outcome::Ok(t)) => (Tag::Ok, Some(t)),
@@ -370,15 +508,181 @@ pub fn execute(glue: &Glue, plan: &Plan) -> Exec {
             _ => {}
         }
     }
-    Exec {
-        tag,
-        pulls: stream.pulls,
-        pulls_after_end: stream.pulls_after_end,
-        delivered: stream.delivered.clone(),
-        events,
-        size_hint_calls,
-        leaked: yielded.saturating_sub(dropped),
-        producer_dropped,
+    let inner = std::mem::take(&mut stream.inner);
+    (
+        Obs {
+            tag,
+            pulls: stream.pulls,
+            pulls_after_end: stream.pulls_after_end,
+            delivered: stream.delivered.clone(),
+            events,
+            size_hint_calls,
+            leaked: yielded.saturating_sub(dropped),
+            producer_dropped,
+        },
+        inner,
+    )
+}
+
+pub struct ScenarioObs {
+    pub a: Obs,
+    pub inner: Vec<(Plan, Obs)>,
+    pub b: Option<Obs>,
+    /// scheduler decisions actually taken (a prefix of the planned schedule, padded by the default)
+    pub schedule_used: Vec<u8>,
+}
+
+static WATCH_PROGRESS: AtomicU64 = AtomicU64::new(0);
+static WATCH_IN_RUN: AtomicBool = AtomicBool::new(false);
+static WATCH_PLAN: Mutex<Option<String>> = Mutex::new(None);
+
+/// Executes a scenario (without its history). Exactly one parser activation
+/// runs at any time; which one is decided by the scenario's schedule.
+pub fn execute(glue: &Glue, sc: &Scenario) -> ScenarioObs {
+    {
+        *WATCH_PLAN.lock().unwrap() = Some(sc.to_json().to_string());
+    }
+    WATCH_PROGRESS.fetch_add(1, Ordering::SeqCst);
+    WATCH_IN_RUN.store(true, Ordering::SeqCst);
+    let out = match &sc.b {
+        None => {
+            let (a, inner) = run_activation(glue.run_parse, &sc.a, sc.reenter.clone(), None, 0);
+            ScenarioObs { a, inner, b: None, schedule_used: vec![] }
+        }
+        Some(bplan) => {
+            let rp = glue.run_parse;
+            let (arrive_tx, arrive_rx) = channel::<GateMsg>();
+            let (ga_tx, ga_rx) = channel::<()>();
+            let (gb_tx, gb_rx) = channel::<()>();
+            let gate_a = Gate { who: 0, arrive: arrive_tx.clone(), grant: ga_rx };
+            let gate_b = Gate { who: 1, arrive: arrive_tx.clone(), grant: gb_rx };
+            let reenter = sc.reenter.clone();
+            let aplan = sc.a.clone();
+            let bplan = bplan.clone();
+            let mut used = vec![];
+            let (ra, rb) = std::thread::scope(|scope| {
+                let fin_a = arrive_tx.clone();
+                let fin_b = arrive_tx.clone();
+                let ha = scope.spawn(move || {
+                    // initial gate: do not start before the scheduler says so
+                    let _ = gate_a.arrive.send(GateMsg::AtGate(0));
+                    let _ = gate_a.grant.recv();
+                    let r = run_activation(rp, &aplan, reenter, Some(gate_a), 0);
+                    let _ = fin_a.send(GateMsg::Finished(0));
+                    r
+                });
+                let hb = scope.spawn(move || {
+                    let _ = gate_b.arrive.send(GateMsg::AtGate(1));
+                    let _ = gate_b.grant.recv();
+                    let r = run_activation(rp, &bplan, None, Some(gate_b), 2_000_000);
+                    let _ = fin_b.send(GateMsg::Finished(1));
+                    r
+                });
+                // 0 = running, 1 = parked at gate, 2 = finished
+                let mut st = [0u8, 0u8];
+                let mut si = 0usize;
+                loop {
+                    while st[0] == 0 || st[1] == 0 {
+                        match arrive_rx.recv() {
+                            Ok(GateMsg::AtGate(w)) => st[w as usize] = 1,
+                            Ok(GateMsg::Finished(w)) => st[w as usize] = 2,
+                            Err(_) => break,
+                        }
+                    }
+                    if st[0] == 2 && st[1] == 2 {
+                        break;
+                    }
+                    let pick = if st[0] == 1 && st[1] == 1 {
+                        let c = sc.schedule.get(si).copied().unwrap_or(0) & 1;
+                        si += 1;
+                        used.push(c);
+                        c
+                    } else if st[0] == 1 {
+                        0
+                    } else {
+                        1
+                    };
+                    st[pick as usize] = 0;
+                    let _ = if pick == 0 { ga_tx.send(()) } else { gb_tx.send(()) };
+                }
+                (ha.join(), hb.join())
+            });
+            let (a, inner) = ra.expect("activation A thread");
+            let (b, _) = rb.expect("activation B thread");
+            ScenarioObs { a, inner, b: Some(b), schedule_used: used }
+        }
+    };
+    WATCH_IN_RUN.store(false, Ordering::SeqCst);
+    out
+}
+
+// ---------------------------------------------------------------- reference
+
+/// The reference model a run is judged by.
+///   * every nonterminal productive: the Earley recogniser (first index whose prefix cannot
+///     be extended to a sentence); the canonical LR(1) parser, when it could be built, must
+///     agree on every run (a disagreement is a harness error, never a violation);
+///   * otherwise (C03's side clause): the index at which the canonical LR(1) parser stops.
+pub struct Reference {
+    pub productive: bool,
+    earley: Earley,
+    lr1: Option<Lr1>,
+    pub lr1_states: usize,
+}
+
+impl Reference {
+    pub fn new(g: &Grammar, an: &Analysis) -> Result<Reference, String> {
+        let productive = an.all_productive();
+        let earley = Earley::new(g);
+        let lr1 = match Lr1::build(g, 6000) {
+            Ok(l) => {
+                if l.conflicts > 0 {
+                    if productive {
+                        None
+                    } else {
+                        return Err("canonical LR(1) table of a grammar accepted by generate has conflicts; no reference available".into());
+                    }
+                } else {
+                    Some(l)
+                }
+            }
+            Err(BuildErr::TooManyStates(n)) => {
+                if productive {
+                    None
+                } else {
+                    return Err(format!("canonical LR(1) automaton exceeds {n} states; no reference available"));
+                }
+            }
+        };
+        let lr1_states = lr1.as_ref().map(|l| l.states()).unwrap_or(0);
+        Ok(Reference { productive, earley, lr1, lr1_states })
+    }
+
+    pub fn judge(&self, kinds: &[usize]) -> Verdict {
+        if self.productive {
+            let v = self.earley.judge(kinds);
+            if let Some(l) = &self.lr1 {
+                let w = l.judge(kinds);
+                if v != w {
+                    eprintln!(
+                        "harness error: reference models disagree on {:?}: earley {:?}, canonical LR(1) {:?}",
+                        kinds, v, w
+                    );
+                    std::process::exit(2);
+                }
+            }
+            v
+        } else {
+            self.lr1.as_ref().expect("lr1 reference").judge(kinds)
+        }
+    }
+
+    pub fn walk(&self, rng: &mut Rng, len: usize) -> Option<Vec<usize>> {
+        self.lr1.as_ref().map(|l| l.walk(rng, len))
+    }
+
+    pub fn has_lr1(&self) -> bool {
+        self.lr1.is_some()
     }
 }
 
@@ -386,9 +690,11 @@ pub fn execute(glue: &Glue, plan: &Plan) -> Exec {
 
 #[derive(Clone, Debug, PartialEq, Eq)]
 pub struct Violation {
-    /// O1 accepted-a-non-sentence | O2 wrong-offender | O3 wrong-at-end |
-    /// O4 over-pull | O4 pull-after-end | panic
+    /// O1-accepted-non-sentence | O2-wrong-offender | O3-wrong-at-end |
+    /// O4-overpull | O4-pull-after-end | panic
     pub class: &'static str,
+    /// which activation: "A", "inner", "B"
+    pub who: &'static str,
     pub detail: String,
 }
 
@@ -414,10 +720,11 @@ pub fn needed_pulls(v: &Verdict, n: usize) -> usize {
     }
 }
 
-pub fn check(plan: &Plan, v: &Verdict, x: &Exec, notes: &mut Notes) -> Option<Violation> {
+pub fn check(plan: &Plan, v: &Verdict, x: &Obs, who: &'static str, notes: &mut Notes) -> Option<Violation> {
     let s = plan.effective();
     let n = s.len();
     let needed = needed_pulls(v, n);
+    let viol = |class: &'static str, detail: String| Some(Violation { class, who, detail });
     if x.leaked > 0 {
         notes.leaked_tokens += 1;
     }
@@ -449,21 +756,19 @@ pub fn check(plan: &Plan, v: &Verdict, x: &Exec, notes: &mut Notes) -> Option<Vi
     // ---- s is not a sentence: C03 applies
     if let Tag::ProducerPanic(k) = &x.tag {
         // the tripwire beyond the reported token was hit: over-pull made visible
-        return Some(Violation {
-            class: "O4-overpull",
-            detail: format!(
-                "parser pulled item #{k} (tripwire) although the verdict is decidable after {needed} pulls"
-            ),
-        });
+        return viol(
+            "O4-overpull",
+            format!("parser pulled item #{k} (tripwire) although the verdict is decidable after {needed} pulls"),
+        );
     }
     if let Tag::OtherPanic(m) = &x.tag {
-        return Some(Violation { class: "panic", detail: format!("parse panicked on a non-sentence: {m}") });
+        return viol("panic", format!("parse panicked on a non-sentence: {m}"));
     }
     if let Tag::Ok = &x.tag {
-        return Some(Violation {
-            class: "O1-accepted-non-sentence",
-            detail: format!("parse returned Ok for a non-sentence (first_bad={:?}, n={n})", v.first_bad),
-        });
+        return viol(
+            "O1-accepted-non-sentence",
+            format!("parse returned Ok for a non-sentence (first_bad={:?}, n={n})", v.first_bad),
+        );
     }
     match v.first_bad {
         Some(i) => match &x.tag {
@@ -475,49 +780,71 @@ pub fn check(plan: &Plan, v: &Verdict, x: &Exec, notes: &mut Notes) -> Option<Vi
                         Some((ek, eid)) => format!("kind {ek}, id {eid}"),
                         None => format!("kind {}, never pulled", s[i]),
                     };
-                    return Some(Violation {
-                        class: "O2-wrong-offender",
-                        detail: format!(
+                    return viol(
+                        "O2-wrong-offender",
+                        format!(
                             "expected the token delivered for index {i} ({wanted}); got kind {kind}, id {id} (the object delivered for index {at:?})"
                         ),
-                    });
+                    );
                 }
             }
             other => {
-                return Some(Violation {
-                    class: "O2-wrong-offender",
-                    detail: format!("expected Err(Some(token at index {i})); got {}", other.to_json().to_string()),
-                })
+                return viol(
+                    "O2-wrong-offender",
+                    format!("expected Err(Some(token at index {i})); got {}", other.to_json().to_string()),
+                )
             }
         },
         None => {
             if x.tag != Tag::ErrNone {
-                return Some(Violation {
-                    class: "O3-wrong-at-end",
-                    detail: format!(
-                        "input is a proper prefix of a sentence: expected Err(None); got {}",
+                return viol(
+                    "O3-wrong-at-end",
+                    format!(
+                        "input stops where the parser must report end of input: expected Err(None); got {}",
                         x.tag.to_json().to_string()
                     ),
-                });
+                );
             }
         }
     }
     if x.pulls_after_end > 0 {
-        return Some(Violation {
-            class: "O4-pull-after-end",
-            detail: format!("{} pull(s) issued after the producer had returned None", x.pulls_after_end),
-        });
+        return viol(
+            "O4-pull-after-end",
+            format!("{} pull(s) issued after the producer had returned None", x.pulls_after_end),
+        );
     }
     if x.pulls > needed {
-        return Some(Violation {
-            class: "O4-overpull",
-            detail: format!("{} pulls issued; the reported token is item #{needed}", x.pulls),
-        });
+        return viol("O4-overpull", format!("{} pulls issued; the reported token is item #{needed}", x.pulls));
     }
     if x.pulls < needed {
         notes.underpull_correct_result += 1;
     }
     None
+}
+
+pub struct Judged {
+    pub va: Verdict,
+    pub violation: Option<Violation>,
+}
+
+pub fn check_scenario(reference: &Reference, sc: &Scenario, so: &ScenarioObs, notes: &mut Notes) -> Judged {
+    let va = reference.judge(sc.a.effective());
+    let mut violation = check(&sc.a, &va, &so.a, "A", notes);
+    for (p, o) in &so.inner {
+        let v = reference.judge(p.effective());
+        let r = check(p, &v, o, "inner", notes);
+        if violation.is_none() {
+            violation = r;
+        }
+    }
+    if let (Some(p), Some(o)) = (&sc.b, &so.b) {
+        let v = reference.judge(p.effective());
+        let r = check(p, &v, o, "B", notes);
+        if violation.is_none() {
+            violation = r;
+        }
+    }
+    Judged { va, violation }
 }
 
 // -------------------------------------------------------------- minimiser
@@ -531,19 +858,52 @@ fn normalise(mut p: Plan) -> Plan {
     p
 }
 
-/// Delta debugging over the explicit plan; accepts a candidate only if the
+/// Delta debugging over the explicit scenario; accepts a candidate only if the
 /// same violation class persists (re-evaluating the reference on each one).
-pub fn shrink(glue: &Glue, earley: &Earley, plan: &Plan, class: &str, budget: usize) -> (Plan, usize) {
-    let mut best = normalise(plan.clone());
+pub fn shrink(glue: &Glue, reference: &Reference, sc: &Scenario, class: &str, budget: usize) -> (Scenario, usize) {
+    let mut best = sc.clone();
+    best.history.clear();
+    best.a = normalise(best.a);
     let mut steps = 0usize;
-    let still = |p: &Plan, steps: &mut usize| -> bool {
+    let still = |c: &Scenario, steps: &mut usize| -> bool {
         *steps += 1;
-        let v = earley.judge(p.effective());
-        let x = execute(glue, p);
+        let so = execute(glue, c);
         let mut notes = Notes::default();
-        matches!(check(p, &v, &x, &mut notes), Some(viol) if viol.class == class)
+        matches!(check_scenario(reference, c, &so, &mut notes).violation, Some(v) if v.class == class)
     };
-    // 1. drop fault kinds one at a time
+    // 0. reduce the shape: no second activation, no re-entrancy, or B / inner alone
+    let mut shape: Vec<Scenario> = vec![];
+    if let Some(b) = &best.b {
+        shape.push(Scenario::single(b.clone()));
+        let mut c = best.clone();
+        c.b = None;
+        c.schedule.clear();
+        shape.push(c);
+        let mut c = best.clone();
+        c.schedule = vec![]; // default schedule: A runs to completion first
+        shape.push(c);
+    }
+    if let Some((_, p)) = &best.reenter {
+        shape.push(Scenario::single(p.clone()));
+        let mut c = best.clone();
+        c.reenter = None;
+        shape.push(c);
+    }
+    for c in shape {
+        if steps < budget && c != best && still(&c, &mut steps) {
+            best = c;
+        }
+    }
+    if best.b.is_some() {
+        // drop a second activation that survived only if it is still needed
+        let mut c = best.clone();
+        c.b = None;
+        c.schedule.clear();
+        if steps < budget && still(&c, &mut steps) {
+            best = c;
+        }
+    }
+    // 1. drop fault kinds of A one at a time
     let simplifiers: [fn(&Plan) -> Plan; 4] = [
         |p| {
             let mut t = p.clone();
@@ -569,38 +929,41 @@ pub fn shrink(glue: &Glue, earley: &Earley, plan: &Plan, class: &str, budget: us
         },
     ];
     for f in simplifiers.iter() {
-        let t = f(&best);
-        if t != best && steps < budget && still(&t, &mut steps) {
-            best = t;
+        let mut c = best.clone();
+        c.a = f(&best.a);
+        if c != best && steps < budget && still(&c, &mut steps) {
+            best = c;
         }
     }
-    // 2. ddmin over the planned kinds
-    let mut chunk = (best.kinds.len() / 2).max(1);
-    while chunk >= 1 && steps < budget {
+    // 2. ddmin over A's planned kinds
+    let mut chunk = (best.a.kinds.len() / 2).max(1);
+    while steps < budget {
         let mut i = 0;
         let mut progressed = false;
-        while i < best.kinds.len() && steps < budget {
-            let end = (i + chunk).min(best.kinds.len());
-            let mut t = best.clone();
+        while i < best.a.kinds.len() && steps < budget {
+            let end = (i + chunk).min(best.a.kinds.len());
+            let mut t = best.a.clone();
             t.kinds.drain(i..end);
             if let Some(k) = t.eof_at {
                 let removed_before = end.min(k).saturating_sub(i.min(k));
                 t.eof_at = Some(k - removed_before);
             }
             if let Some(p) = t.panic_at {
-                let removed_before = end.min(p.saturating_sub(1)).saturating_sub(i.min(p.saturating_sub(1)));
+                let q = p.saturating_sub(1);
+                let removed_before = end.min(q).saturating_sub(i.min(q));
                 t.panic_at = Some((p - removed_before).max(1));
             }
-            let t = normalise(t);
-            if still(&t, &mut steps) {
-                best = t;
+            let mut c = best.clone();
+            c.a = normalise(t);
+            if let Some((k, _)) = &mut c.reenter {
+                *k = (*k).min(c.a.kinds.len() + 1).max(1);
+            }
+            if still(&c, &mut steps) {
+                best = c;
                 progressed = true;
             } else {
                 i += chunk;
             }
-        }
-        if chunk == 1 && !progressed {
-            break;
         }
         if chunk > 1 {
             chunk /= 2;
@@ -608,14 +971,43 @@ pub fn shrink(glue: &Glue, earley: &Earley, plan: &Plan, class: &str, budget: us
             break;
         }
     }
-    // 3. shorten the resume tail
-    while !best.resume.is_empty() && steps < budget {
-        let mut t = best.clone();
-        t.resume.pop();
-        if still(&t, &mut steps) {
-            best = t;
+    // 3. shorten the resume tail, the schedule, the other activations
+    while !best.a.resume.is_empty() && steps < budget {
+        let mut c = best.clone();
+        c.a.resume.pop();
+        if still(&c, &mut steps) {
+            best = c;
         } else {
             break;
+        }
+    }
+    while !best.schedule.is_empty() && steps < budget {
+        let mut c = best.clone();
+        c.schedule.pop();
+        if still(&c, &mut steps) {
+            best = c;
+        } else {
+            break;
+        }
+    }
+    for which in 0..2 {
+        loop {
+            let mut c = best.clone();
+            let p = match (which, &mut c.b, &mut c.reenter) {
+                (0, Some(b), _) => b,
+                (1, _, Some((_, p))) => p,
+                _ => break,
+            };
+            if p.kinds.is_empty() || steps >= budget {
+                break;
+            }
+            p.kinds.pop();
+            *p = normalise(p.clone());
+            if still(&c, &mut steps) {
+                best = c;
+            } else {
+                break;
+            }
         }
     }
     (best, steps)
@@ -626,101 +1018,159 @@ pub fn shrink(glue: &Glue, earley: &Earley, plan: &Plan, class: &str, budget: us
 pub struct Workload<'a> {
     pub g: &'a Grammar,
     pub an: &'a Analysis,
-    pub earley: &'a Earley,
+    pub reference: &'a Reference,
     pub maxlen: usize,
 }
 
 pub struct Drawn {
-    pub plan: Plan,
+    pub sc: Scenario,
     pub origin: &'static str,
     pub edits: Vec<&'static str>,
 }
 
 impl Workload<'_> {
-    pub fn draw(&self, rng: &mut Rng, faulty: bool) -> Drawn {
+    fn draw_kinds(&self, rng: &mut Rng, edits_applied: &mut Vec<&'static str>) -> (Vec<usize>, &'static str) {
         let nt = self.g.terms.len();
-        let mut edits_applied = vec![];
+        let start_ok = self.an.productive[self.g.start];
+        let mut which = rng.weighted(&[10, 2, 2, 3]);
+        if !start_ok && (which == 0 || which == 2) {
+            which = 3;
+        }
+        if which == 3 && !self.reference.has_lr1() {
+            which = if start_ok { 0 } else { 1 };
+        }
         let origin;
         let mut kinds: Vec<usize>;
-        let which = rng.weighted(&[10, 2, 2]);
-        if which == 0 || nt == 0 {
-            origin = "derivation";
-            let budget = rng.range(2, 12);
-            let cap = rng.range(self.maxlen.max(2) / 2, self.maxlen.max(2));
-            kinds = self.an.sample_sentence(self.g.start, rng, budget, cap);
-            let other = if rng.chance(1, 3) {
-                { let b = rng.range(1, 6); self.an.sample_sentence(self.g.start, rng, b, cap) }
-            } else {
-                vec![]
-            };
-            let n_edits = rng.weighted(&[3, 6, 2, 1]);
-            for _ in 0..n_edits {
-                edits_applied.push(edits::edit(&mut kinds, nt, &other, rng));
+        match which {
+            0 => {
+                origin = "derivation";
+                let budget = rng.range(2, 12);
+                let cap = rng.range(self.maxlen.max(2) / 2, self.maxlen.max(2));
+                kinds = self.an.sample_sentence(self.g.start, rng, budget, cap);
+                let other = if rng.chance(1, 3) {
+                    let b = rng.range(1, 6);
+                    self.an.sample_sentence(self.g.start, rng, b, cap)
+                } else {
+                    vec![]
+                };
+                let n_edits = rng.weighted(&[3, 6, 2, 1]);
+                for _ in 0..n_edits {
+                    edits_applied.push(edits::edit(&mut kinds, nt, &other, rng));
+                }
             }
-        } else if which == 1 {
-            origin = "random";
-            let len = rng.range(0, 8);
-            kinds = (0..len).map(|_| rng.below(nt)).collect();
-        } else {
-            origin = "prefix";
-            let cap = rng.range(1, self.maxlen.max(1));
-            let b = rng.range(1, 9);
-            kinds = self.an.sample_sentence(self.g.start, rng, b, cap);
-            let k = rng.below(kinds.len() + 1);
-            kinds.truncate(k);
+            1 => {
+                origin = "random";
+                let len = rng.range(0, 8);
+                kinds = (0..len).map(|_| rng.below(nt)).collect();
+            }
+            2 => {
+                origin = "prefix";
+                let cap = rng.range(1, self.maxlen.max(1));
+                let b = rng.range(1, 9);
+                kinds = self.an.sample_sentence(self.g.start, rng, b, cap);
+                let k = rng.below(kinds.len() + 1);
+                kinds.truncate(k);
+            }
+            _ => {
+                // random walk over the canonical LR(1) automaton: a long prefix on which a
+                // canonical parser reports no error, then (mostly) one edit
+                origin = "lr-walk";
+                let len = rng.range(1, self.maxlen.max(1));
+                kinds = self.reference.walk(rng, len).unwrap_or_default();
+                if rng.chance(2, 3) {
+                    edits_applied.push(edits::edit(&mut kinds, nt, &[], rng));
+                }
+            }
         }
         kinds.truncate(self.maxlen);
-        let mut plan = Plan { kinds, eof_at: None, resume: vec![], panic_at: None, hint: Hint::Default };
-        plan.hint = *rng.pick(&[Hint::Default, Hint::Default, Hint::Exact, Hint::LowerOnly, Hint::UpperLoose]);
-        if faulty {
-            let n = plan.kinds.len();
-            // swarm: each run enables its own subset of fault kinds
-            let en_eof = rng.chance(1, 2);
-            let en_resume = rng.chance(1, 2);
-            let en_panic = rng.chance(1, 2);
-            if en_eof && n > 0 {
-                // bias: k = 0, k right before the first offender, uniform
-                let k = match rng.below(10) {
-                    0 => 0,
-                    1..=3 => {
-                        let v = self.earley.judge(&plan.kinds);
-                        v.first_bad.unwrap_or(n).min(n)
-                    }
-                    _ => rng.below(n + 1),
-                };
-                if k < n {
-                    plan.eof_at = Some(k);
+        (kinds, origin)
+    }
+
+    fn add_faults(&self, plan: &mut Plan, rng: &mut Rng) {
+        let nt = self.g.terms.len();
+        let n = plan.kinds.len();
+        // swarm: each run enables its own subset of fault kinds
+        let en_eof = rng.chance(1, 2);
+        let en_resume = rng.chance(1, 2);
+        let en_panic = rng.chance(1, 2);
+        if en_eof && n > 0 {
+            // bias: k = 0, k right before the first offender, uniform
+            let k = match rng.below(10) {
+                0 => 0,
+                1..=3 => {
+                    let v = self.reference.judge(&plan.kinds);
+                    v.first_bad.unwrap_or(n).min(n)
                 }
-            }
-            if en_resume && nt > 0 {
-                let len = rng.range(1, 4);
-                // bias: resume with exactly what was cut off, so that a parser that
-                // polls again after None sees a plausible continuation
-                if let (Some(k), true) = (plan.eof_at, rng.chance(1, 2)) {
-                    plan.resume = plan.kinds[k..].iter().copied().take(6).collect();
-                }
-                if plan.resume.is_empty() {
-                    plan.resume = (0..len).map(|_| rng.below(nt)).collect();
-                }
-            }
-            if en_panic {
-                let v = self.earley.judge(plan.effective());
-                let needed = needed_pulls(&v, plan.effective().len());
-                plan.panic_at = Some(match rng.below(4) {
-                    0 | 1 => needed + 1, // tripwire right behind the reported token
-                    2 => needed + 2,
-                    _ => rng.range(1, needed + 2),
-                });
+                _ => rng.below(n + 1),
+            };
+            if k < n {
+                plan.eof_at = Some(k);
             }
         }
-        Drawn { plan, origin, edits: edits_applied }
+        if en_resume && nt > 0 {
+            let len = rng.range(1, 4);
+            // bias: resume with exactly what was cut off, so that a parser that
+            // polls again after None sees a plausible continuation
+            if let (Some(k), true) = (plan.eof_at, rng.chance(1, 2)) {
+                plan.resume = plan.kinds[k..].iter().copied().take(6).collect();
+            }
+            if plan.resume.is_empty() {
+                plan.resume = (0..len).map(|_| rng.below(nt)).collect();
+            }
+        }
+        if en_panic {
+            let v = self.reference.judge(plan.effective());
+            let needed = needed_pulls(&v, plan.effective().len());
+            plan.panic_at = Some(match rng.below(4) {
+                0 | 1 => needed + 1, // tripwire right behind the reported token
+                2 => needed + 2,
+                _ => rng.range(1, needed + 2),
+            });
+        }
+    }
+
+    pub fn draw(&self, rng: &mut Rng, faulty: bool) -> Drawn {
+        let mut edits_applied = vec![];
+        let (kinds, origin) = self.draw_kinds(rng, &mut edits_applied);
+        let mut plan = Plan::plain(kinds);
+        plan.hint = *rng.pick(&[Hint::Default, Hint::Default, Hint::Exact, Hint::LowerOnly, Hint::UpperLoose]);
+        let mut sc = Scenario::single(plan);
+        if faulty {
+            self.add_faults(&mut sc.a, rng);
+            if rng.chance(1, 8) {
+                // re-entrant activation from inside A's producer
+                let mut e = vec![];
+                let (k2, _) = self.draw_kinds(rng, &mut e);
+                let v = self.reference.judge(sc.a.effective());
+                let needed = needed_pulls(&v, sc.a.effective().len());
+                sc.reenter = Some((rng.range(1, needed), Plan::plain(k2)));
+            }
+            if rng.chance(1, 10) {
+                // second activation on another thread, interleaved at pull granularity
+                let mut e = vec![];
+                let (k2, _) = self.draw_kinds(rng, &mut e);
+                let mut b = Plan::plain(k2);
+                if rng.chance(1, 2) {
+                    self.add_faults(&mut b, rng);
+                }
+                let len = sc.a.kinds.len() + b.kinds.len() + 4;
+                sc.schedule = match rng.below(4) {
+                    0 => vec![],                                              // A first, then B
+                    1 => vec![1; len],                                        // B first, then A
+                    2 => (0..len).map(|i| (i % 2) as u8).collect(),           // strict alternation
+                    _ => (0..len).map(|_| rng.below(2) as u8).collect(),      // seeded random
+                };
+                sc.b = Some(b);
+            }
+        }
+        Drawn { sc, origin, edits: edits_applied }
     }
 }
 
 // --------------------------------------------------------------------- main
 
 fn usage() -> ! {
-    eprintln!("usage: <bin> run --seed S --item K --faultfree N --faulty M --maxlen L --out FILE | replay FILE | shrink FILE CLASS");
+    eprintln!("usage: <bin> run --seed S --item K --faultfree N --faulty M --maxlen L --out FILE | replay FILE | judge FILE");
     std::process::exit(2);
 }
 
@@ -754,14 +1204,30 @@ fn start_watchdog(out_path: Option<String>) {
     });
 }
 
-fn self_check(g: &Grammar, an: &Analysis, earley: &Earley, seed: u64, item: u64) -> Result<usize, String> {
+fn self_check(g: &Grammar, an: &Analysis, reference: &Reference, seed: u64, item: u64) -> Result<usize, String> {
     let mut rng = Rng::derive(seed, &[ENGINE_B, item, 0xC0FFEE]);
     let mut done = 0;
-    // (1) every derived sentence is recognised
+    if !reference.productive {
+        // the Earley / fixpoint pair judge "extendable to a sentence", which is not what C03
+        // prescribes for such grammars; only the canonical LR(1) reference applies here
+        if an.productive[g.start] {
+            for _ in 0..40 {
+                let budget = rng.range(1, 7);
+                let s = an.sample_sentence(g.start, &mut rng, budget, 48);
+                let v = reference.judge(&s);
+                if !v.sentence {
+                    return Err(format!("canonical LR(1) reference rejects a derived sentence {:?}: {:?}", s, v));
+                }
+                done += 1;
+            }
+        }
+        return Ok(done);
+    }
+    // (1) every derived sentence is recognised (by Earley and, through `judge`, by LR(1))
     for _ in 0..40 {
         let budget = rng.range(1, 7);
         let s = an.sample_sentence(g.start, &mut rng, budget, 48);
-        let v = earley.judge(&s);
+        let v = reference.judge(&s);
         if !v.sentence {
             return Err(format!("reference model rejects a derived sentence {:?}: {:?}", s, v));
         }
@@ -779,7 +1245,7 @@ fn self_check(g: &Grammar, an: &Analysis, earley: &Earley, seed: u64, item: u64)
                 edits::edit(&mut s, g.terms.len(), &[], &mut rng);
             }
             s.truncate(8);
-            let a = earley.judge(&s);
+            let a = reference.judge(&s);
             let b = Fixpoint::judge(g, &s);
             if a != b {
                 return Err(format!("Earley {:?} and fixpoint {:?} disagree on {:?}", a, b, s));
@@ -790,26 +1256,26 @@ fn self_check(g: &Grammar, an: &Analysis, earley: &Earley, seed: u64, item: u64)
     Ok(done)
 }
 
-fn exec_json(plan: &Plan, v: &Verdict, x: &Exec) -> J {
-    J::obj()
-        .set("plan", plan.to_json())
-        .set(
-            "reference",
-            J::obj()
-                .set("sentence", J::Bool(v.sentence))
-                .set("first_bad", v.first_bad.map(J::uz).unwrap_or(J::Null))
-                .set("needed_pulls", J::uz(needed_pulls(v, plan.effective().len()))),
-        )
-        .set(
-            "observed",
-            J::obj()
-                .set("result", x.tag.to_json())
-                .set("pulls", J::uz(x.pulls))
-                .set("pulls_after_end", J::uz(x.pulls_after_end))
-                .set("size_hint_calls", J::uz(x.size_hint_calls))
-                .set("leaked_tokens", J::uz(x.leaked))
-                .set("events", J::uz(x.events.len())),
-        )
+fn exec_json(reference: &Reference, sc: &Scenario, so: &ScenarioObs) -> J {
+    let refj = |p: &Plan| {
+        let v = reference.judge(p.effective());
+        J::obj()
+            .set("sentence", J::Bool(v.sentence))
+            .set("first_bad", v.first_bad.map(J::uz).unwrap_or(J::Null))
+            .set("needed_pulls", J::uz(needed_pulls(&v, p.effective().len())))
+    };
+    let mut reference_j = J::obj().set("A", refj(&sc.a));
+    let mut observed = J::obj().set("A", so.a.to_json());
+    if !so.inner.is_empty() {
+        reference_j.put("inner", refj(&so.inner[0].0));
+        observed.put("inner", so.inner[0].1.to_json());
+    }
+    if let (Some(p), Some(o)) = (&sc.b, &so.b) {
+        reference_j.put("B", refj(p));
+        observed.put("B", o.to_json());
+        observed.put("schedule_used", J::Arr(so.schedule_used.iter().map(|x| J::uz(*x as usize)).collect()));
+    }
+    J::obj().set("plan", sc.to_json()).set("reference", reference_j).set("observed", observed)
 }
 
 pub fn main(glue: &Glue) {
@@ -821,11 +1287,14 @@ pub fn main(glue: &Glue) {
     let model = J::parse(glue.model_json).expect("model json");
     let g = Grammar::from_json(&model).expect("model");
     let an = Analysis::new(&g);
-    if !an.all_productive() {
-        eprintln!("harness error: workload grammar has unproductive nonterminals");
-        std::process::exit(2);
-    }
-    let earley = Earley::new(&g);
+    let reference = match Reference::new(&g, &an) {
+        Ok(r) => r,
+        Err(e) => {
+            // not a violation and not a harness failure: this grammar has no reference model
+            println!("{}", J::obj().set("skipped", J::str(&e)).to_string());
+            std::process::exit(4);
+        }
+    };
     match args[1].as_str() {
         "run" => {
             let seed: u64 = arg_val(&args, "--seed").and_then(|s| s.parse().ok()).unwrap_or(1);
@@ -836,20 +1305,21 @@ pub fn main(glue: &Glue) {
             let maxlen: usize = arg_val(&args, "--maxlen").and_then(|s| s.parse().ok()).unwrap_or(64);
             let out = arg_val(&args, "--out");
             start_watchdog(out.clone());
-            let sc = match self_check(&g, &an, &earley, seed, item) {
+            let sc_done = match self_check(&g, &an, &reference, seed, item) {
                 Ok(n) => n,
                 Err(e) => {
                     eprintln!("harness error: reference self-check failed: {e}");
                     std::process::exit(2);
                 }
             };
-            let w = Workload { g: &g, an: &an, earley: &earley, maxlen };
+            let w = Workload { g: &g, an: &an, reference: &reference, maxlen };
             let mut digest = Fnv::new();
             let mut notes = Notes::default();
             let mut distinct = std::collections::HashSet::new();
             let mut distinct_nonsentence = std::collections::HashSet::new();
             let mut violations: Vec<J> = vec![];
             let mut samples: Vec<J> = vec![];
+            let mut history: std::collections::VecDeque<Plan> = std::collections::VecDeque::new();
             let mut c = std::collections::BTreeMap::<&'static str, usize>::new();
             let bump = |k: &'static str, c: &mut std::collections::BTreeMap<&'static str, usize>| {
                 *c.entry(k).or_insert(0) += 1;
@@ -860,20 +1330,44 @@ pub fn main(glue: &Glue) {
                 let run_no = (from + r) as u64;
                 let mut rng = Rng::derive(seed, &[ENGINE_B, item, run_no, faulty as u64]);
                 let d = w.draw(&mut rng, faulty);
-                let plan = d.plan;
-                let v = earley.judge(plan.effective());
-                let x = execute(glue, &plan);
+                let sc = d.sc;
+                let so = execute(glue, &sc);
+                let judged = check_scenario(&reference, &sc, &so, &mut notes);
+                let v = judged.va;
+                let x = &so.a;
+                let plan = &sc.a;
                 // event log digest
                 digest.u64(run_no);
-                digest.str(&plan.to_json().to_string());
+                digest.str(&sc.to_json().to_string());
                 digest.str(&x.tag.to_json().to_string());
                 digest.u64(x.pulls as u64);
                 for e in &x.events {
                     digest.str(&format!("{:?}", e));
                 }
-                let pd = plan.digest();
+                for (_, o) in &so.inner {
+                    digest.str(&o.tag.to_json().to_string());
+                    for e in &o.events {
+                        digest.str(&format!("{:?}", e));
+                    }
+                }
+                if let Some(o) = &so.b {
+                    digest.str(&o.tag.to_json().to_string());
+                    for e in &o.events {
+                        digest.str(&format!("{:?}", e));
+                    }
+                    for s in &so.schedule_used {
+                        digest.u64(*s as u64);
+                    }
+                }
+                let pd = sc.digest();
                 distinct.insert(pd);
                 bump(if faulty { "runs_faulty" } else { "runs_faultfree" }, &mut c);
+                match d.origin {
+                    "derivation" => bump("origin_derivation", &mut c),
+                    "random" => bump("origin_random", &mut c),
+                    "prefix" => bump("origin_prefix", &mut c),
+                    _ => bump("origin_lr_walk", &mut c),
+                }
                 let n = plan.effective().len();
                 if v.sentence {
                     bump("sentence", &mut c);
@@ -887,6 +1381,11 @@ pub fn main(glue: &Glue) {
                     }
                     if v.first_bad.is_none() && n == 0 {
                         bump("empty_input_not_sentence", &mut c);
+                    }
+                    if let Some(i) = v.first_bad {
+                        if i >= 16 {
+                            bump("probe_first_bad_beyond_16_tokens", &mut c);
+                        }
                     }
                 }
                 // faults that actually took effect
@@ -918,6 +1417,20 @@ pub fn main(glue: &Glue) {
                         bump("armed_panic_tripwire", &mut c);
                     }
                 }
+                if sc.reenter.is_some() || !so.inner.is_empty() {
+                    if so.inner.is_empty() {
+                        bump("armed_reenter_not_reached", &mut c);
+                    } else {
+                        bump("fired_reenter", &mut c);
+                    }
+                }
+                if so.b.is_some() {
+                    bump("fired_second_activation", &mut c);
+                    let switches = so.schedule_used.windows(2).filter(|w| w[0] != w[1]).count();
+                    if switches >= 2 {
+                        bump("probe_interleaved_with_2plus_switches", &mut c);
+                    }
+                }
                 if x.size_hint_calls > 0 {
                     bump("size_hint_called", &mut c);
                 }
@@ -933,26 +1446,29 @@ pub fn main(glue: &Glue) {
                     Tag::OtherPanic(_) => bump("result_other_panic", &mut c),
                 }
                 if samples.len() < 3 && !v.sentence && (r % 7 == 3 || r + 1 == total) {
-                    samples.push(exec_json(&plan, &v, &x).set("origin", J::str(d.origin)).set(
-                        "edits",
-                        J::Arr(d.edits.iter().map(|e| J::str(e)).collect()),
-                    ));
+                    samples.push(
+                        exec_json(&reference, &sc, &so)
+                            .set("origin", J::str(d.origin))
+                            .set("edits", J::Arr(d.edits.iter().map(|e| J::str(e)).collect())),
+                    );
                 }
-                if let Some(viol) = check(&plan, &v, &x, &mut notes) {
+                if let Some(viol) = judged.violation {
                     if violations.len() < 3 {
-                        let (small, steps) = shrink(glue, &earley, &plan, viol.class, 3000);
-                        let sv = earley.judge(small.effective());
-                        let sx = execute(glue, &small);
+                        let (small, steps) = shrink(glue, &reference, &sc, viol.class, 3000);
+                        let sso = execute(glue, &small);
                         let mut n2 = Notes::default();
-                        let sviol = check(&small, &sv, &sx, &mut n2);
+                        let sviol = check_scenario(&reference, &small, &sso, &mut n2).violation;
+                        let mut with_history = sc.clone();
+                        with_history.history = history.iter().cloned().collect();
                         violations.push(
                             J::obj()
                                 .set("class", J::str(viol.class))
+                                .set("activation", J::str(viol.who))
                                 .set("detail", J::str(&viol.detail))
                                 .set("run", J::Int(run_no as i128))
                                 .set("faulty", J::Bool(faulty))
-                                .set("original", exec_json(&plan, &v, &x))
-                                .set("minimised", exec_json(&small, &sv, &sx))
+                                .set("original", exec_json(&reference, &with_history, &so))
+                                .set("minimised", exec_json(&reference, &small, &sso))
                                 .set(
                                     "minimised_detail",
                                     J::str(&sviol.map(|v| v.detail).unwrap_or_default()),
@@ -964,6 +1480,10 @@ pub fn main(glue: &Glue) {
                     }
                     bump("violations", &mut c);
                 }
+                history.push_back(sc.a.clone());
+                if history.len() > 24 {
+                    history.pop_front();
+                }
             }
             let mut counters = J::obj();
             for (k, v) in &c {
@@ -972,8 +1492,10 @@ pub fn main(glue: &Glue) {
             let summary = J::obj()
                 .set("item", J::Int(item as i128))
                 .set("family", J::str(&g.family))
+                .set("all_productive", J::Bool(reference.productive))
+                .set("lr1_states", J::uz(reference.lr1_states))
                 .set("runs", J::uz(total))
-                .set("self_checks", J::uz(sc))
+                .set("self_checks", J::uz(sc_done))
                 .set("distinct_plans", J::uz(distinct.len()))
                 .set("distinct_nonsentence_plans", J::uz(distinct_nonsentence.len()))
                 .set("digest", J::str(&format!("{:016x}", digest.0)))
@@ -1003,21 +1525,28 @@ pub fn main(glue: &Glue) {
             let file = args.get(2).cloned().unwrap_or_else(|| usage());
             let txt = std::fs::read_to_string(&file).expect("read plan");
             let j = J::parse(&txt).expect("plan json");
-            let plan = Plan::from_json(j.get("plan").unwrap_or(&j)).expect("plan");
-            let v = earley.judge(plan.effective());
-            let x = execute(glue, &plan);
+            let sc = Scenario::from_json(j.get("plan").unwrap_or(&j)).expect("scenario");
+            // call history first (same thread, same process), results ignored
+            for h in &sc.history {
+                let _ = execute(glue, &Scenario::single(h.clone()));
+            }
+            let so = execute(glue, &sc);
             let mut notes = Notes::default();
-            let viol = check(&plan, &v, &x, &mut notes);
-            let mut o = exec_json(&plan, &v, &x);
+            let viol = check_scenario(&reference, &sc, &so, &mut notes).violation;
+            let mut o = exec_json(&reference, &sc, &so);
             match &viol {
                 Some(v) => {
                     o.put("violation", J::str(v.class));
+                    o.put("activation", J::str(v.who));
                     o.put("detail", J::str(&v.detail));
                 }
                 None => o.put("violation", J::Null),
             }
-            let evs: Vec<J> = x.events.iter().map(|e| J::str(&format!("{:?}", e))).collect();
-            o.put("event_log", J::Arr(evs));
+            let evs: Vec<J> = so.a.events.iter().map(|e| J::str(&format!("{:?}", e))).collect();
+            o.put("event_log_A", J::Arr(evs));
+            if let Some(b) = &so.b {
+                o.put("event_log_B", J::Arr(b.events.iter().map(|e| J::str(&format!("{:?}", e))).collect()));
+            }
             println!("{}", o.to_string());
             std::process::exit(if viol.is_some() { 1 } else { 0 });
         }
@@ -1026,12 +1555,19 @@ pub fn main(glue: &Glue) {
             let file = args.get(2).cloned().unwrap_or_else(|| usage());
             let txt = std::fs::read_to_string(&file).expect("read plan");
             let j = J::parse(&txt).expect("plan json");
-            let plan = Plan::from_json(j.get("plan").unwrap_or(&j)).expect("plan");
-            let v = earley.judge(plan.effective());
+            let sc = Scenario::from_json(j.get("plan").unwrap_or(&j)).expect("scenario");
+            let v = reference.judge(sc.a.effective());
+            let mut all_sentences = v.sentence;
+            if let Some((_, p)) = &sc.reenter {
+                all_sentences &= reference.judge(p.effective()).sentence;
+            }
+            if let Some(p) = &sc.b {
+                all_sentences &= reference.judge(p.effective()).sentence;
+            }
             println!(
                 "{}",
                 J::obj()
-                    .set("sentence", J::Bool(v.sentence))
+                    .set("sentence", J::Bool(all_sentences))
                     .set("first_bad", v.first_bad.map(J::uz).unwrap_or(J::Null))
                     .to_string()
             );
